@@ -15,6 +15,13 @@ CLAIMED = {
     ),
 }
 
+CLAIMED["C02"] = (
+    "differential runtime monitor under a guard-page allocator: x86-64 JIT point and SIMD slice evaluators vs the interpreter per node, every slice length 0..=35, crash monitor (child processes) for SIGSEGV/abort",
+    "Held on every program/input/length observed; any access outside the caller's slices or the evaluator's freshly allocated buffers faults and is attributed to the case. Exploration over generated programs, not proof.",
+    "x86-64 only; Vec spare capacity is avoided by using a fresh evaluator per call; in-bounds wrong-lane writes are only visible through the value oracle.",
+    "DESIGN.md 3/C02",
+)
+
 NOT_YET = {}
 
 def main():
